@@ -42,8 +42,11 @@ _ps.time = CLOCK
 class VExc(Exception):
     """the exception raised by the body of node `origin`"""
 
-    def __init__(self, origin):
-        super().__init__("boom-%d" % origin)
+    def __init__(self, origin, message=None):
+        if message is None:
+            super().__init__("boom-%d" % origin)
+        else:
+            super().__init__(*message)
         self.origin = origin
 
 
@@ -120,7 +123,8 @@ class Ctx:
         if self.g("out", node) == "exc":
             self.log("raise", node)
             self.stall(node)
-            raise VExc(node)
+            # an exception may carry no message at all (a bare assert, TimeoutError())
+            raise VExc(node, () if self.h.get("emptymsg") else None)
         self.log("end", node)
         self.stall(node)
         return self.ret[node]
